@@ -163,6 +163,7 @@ type Env struct {
 	Client backend.Client
 	Active backend.Client // shadow only: the two wrapped clients (for direct uploads)
 	Shadow backend.Client
+	Raw    func(key string, b []byte) // s3 only: store an object under a key behind the client's back
 	Close  func()
 }
 
@@ -251,6 +252,31 @@ func Exec(t *verifh.T, c verifh.Case, mk Factory) bool {
 					src = onlyReader{bytes.NewReader(b)}
 				}
 				obs = []string{errClass(cl.Upload("ns", op[2], src))}
+			case op[1] == "put-raw" && len(op) == 4:
+				key, err := verifh.Unstr(op[2])
+				b, err2 := verifh.Unhex(op[3])
+				// only keys the docker_tag pather cannot convert back to a name
+				if env.Raw == nil || err != nil || err2 != nil || KV(c.Cfg, "pather") != "docker_tag" || !nameRe.MatchString(key) ||
+					strings.HasSuffix(key, "/current/link") {
+					return
+				}
+				env.Raw(key, b)
+				obs = []string{"ok"}
+			case (op[1] == "download@shadow" || op[1] == "download@active") && len(op) == 3 && nameRe.MatchString(op[2]):
+				// read one wrapped backend of the shadow client directly
+				cl := env.Shadow
+				if op[1] == "download@active" {
+					cl = env.Active
+				}
+				if cl == nil {
+					return
+				}
+				var w bytes.Buffer
+				if err := cl.Download("ns", op[2], &w); err == nil {
+					obs = []string{"bytes", verifh.Hex(w.Bytes())}
+				} else {
+					obs = []string{errClass(err)}
+				}
 			case op[1] == "download" && (len(op) == 3 || len(op) == 4) && nameRe.MatchString(op[2]):
 				var err error
 				var got []byte
@@ -395,9 +421,14 @@ func NewS3(cfg []string) *Env {
 	key := KV(cfg, "root") + " " + KV(cfg, "pather") + " " + KV(cfg, "listmax")
 	s3Mu.Lock()
 	defer s3Mu.Unlock()
+	raw := func(f *FakeS3) func(string, []byte) {
+		return func(k string, b []byte) {
+			f.Upload(&s3manager.UploadInput{Key: aws.String(k), Body: bytes.NewReader(b)})
+		}
+	}
 	if e, ok := s3Cache[key]; ok {
 		e.fake.Reset(cap)
-		return &Env{Client: e.c, Close: func() {}}
+		return &Env{Client: e.c, Raw: raw(e.fake), Close: func() {}}
 	}
 	auth := s3backend.UserAuthConfig{}
 	a := s3backend.AuthConfig{}
@@ -411,7 +442,7 @@ func NewS3(cfg []string) *Env {
 		return nil
 	}
 	s3Cache[key] = &s3Cached{c, fake}
-	return &Env{Client: c, Close: func() {}}
+	return &Env{Client: c, Raw: raw(fake), Close: func() {}}
 }
 
 // NewPlain builds the backend named by the token `be=` (testfs, sql, s3).
@@ -438,6 +469,8 @@ func TestfsProfiles() map[string]Profile {
 	return map[string]Profile{
 		"testfs-identity": {Cfg: []string{"be=testfs", "pather=identity", "root=root", "match=dir", "sizes=1", "paged=err", "emptylist=err"},
 			Names: identNames, Prefixes: identPrefixes},
+		"testfs-identity-deeproot": {Cfg: []string{"be=testfs", "pather=identity", "root=a/b.c", "match=dir", "sizes=1", "paged=err", "emptylist=err"},
+			Names: identNames, Prefixes: identPrefixes},
 		"testfs-dockertag": {Cfg: []string{"be=testfs", "pather=docker_tag", "root=root", "match=dir", "sizes=1", "paged=err", "emptylist=err"},
 			Names: dockerNames, BadNames: dockerBad, Prefixes: append([]string{"lib"}, dockerPrefixes...)},
 	}
@@ -450,15 +483,35 @@ func SQLProfiles() map[string]Profile {
 	}
 }
 
+// rawKeys: objects a real registry bucket holds under the listed prefixes next to the tag links
+// (they do not convert back to a name; the server counts them against MaxKeys all the same).
+func rawKeys(root string) []string {
+	base := strings.Trim(root, "/")
+	if base != "" {
+		base += "/"
+	}
+	base += "docker/registry/v2/repositories/"
+	return []string{base + "r0/_manifests/tags/t0/index/sha256/ab/link", base + "r0/_layers/sha256/cd/link",
+		base + "r0/_manifests/tags/t1/index/sha256/ef/link", base + "r0-x/_uploads/u1/data",
+		base + "r1/_manifests/revisions/sha256/aa/link", base + "r0/_manifests/tags/t0/zz"}
+}
+
 func S3Profiles() map[string]Profile {
-	mk := func(pather, listmax, cap string, names, bad, prefixes []string) Profile {
-		return Profile{Cfg: []string{"be=s3", "pather=" + pather, "root=/root", "match=str", "sizes=1", "paged=1", "emptylist=ok",
+	mk := func(root, pather, listmax, cap string, names, bad, prefixes []string) Profile {
+		p := Profile{Cfg: []string{"be=s3", "pather=" + pather, "root=" + root, "match=str", "sizes=1", "paged=1", "emptylist=ok",
 			"listmax=" + listmax, "cap=" + cap}, Names: names, BadNames: bad, Prefixes: prefixes, Paged: true}
+		if pather == "docker_tag" {
+			p.RawKeys = rawKeys(root)
+		}
+		return p
 	}
 	return map[string]Profile{
-		"s3-identity-max3":      mk("identity", "3", "0", identNames, nil, append([]string{"d", "d0/s"}, identPrefixes...)),
-		"s3-identity-shortpage": mk("identity", "250", "2", identNames, nil, append([]string{"d"}, identPrefixes...)),
-		"s3-dockertag-max2cap1": mk("docker_tag", "2", "1", dockerNames, dockerBad, append([]string{"r", "r0"}, dockerPrefixes...)),
+		"s3-identity-max3":      mk("/root", "identity", "3", "0", identNames, nil, append([]string{"d", "d0/s"}, identPrefixes...)),
+		"s3-identity-shortpage": mk("/root", "identity", "250", "2", identNames, nil, append([]string{"d"}, identPrefixes...)),
+		"s3-dockertag-max2cap1": mk("/root", "docker_tag", "2", "1", dockerNames, dockerBad, append([]string{"r", "r0"}, dockerPrefixes...)),
+		"s3-dockertag-max3":     mk("/a.b+c", "docker_tag", "3", "2", dockerNames, dockerBad, append([]string{"r0"}, dockerPrefixes...)),
+		"s3-identity-slashroot": mk("/", "identity", "2", "0", identNames, nil, append([]string{"d"}, identPrefixes...)),
+		"s3-identity-deeproot":  mk("/a/b/", "identity", "250", "3", identNames, nil, identPrefixes),
 	}
 }
 
@@ -470,8 +523,9 @@ type Profile struct {
 	Names    []string
 	BadNames []string
 	Prefixes []string
-	Paged    bool // generate page ops
-	SubOps   bool // shadow: direct uploads into the wrapped clients, non-seekable sources
+	Paged    bool     // generate page ops
+	RawKeys  []string // s3: keys of foreign objects stored under the listed prefixes
+	SubOps   bool     // shadow: direct uploads into the wrapped clients, non-seekable sources
 }
 
 var contents = [][]byte{nil, []byte("a"), []byte("bb")}
@@ -487,6 +541,11 @@ func (p Profile) alphabet(nNames int) [][]string {
 			ops = append(ops, []string{"op", "upload", n, verifh.Hex(b)})
 		}
 		ops = append(ops, []string{"op", "download", n}, []string{"op", "stat", n})
+	}
+	for i, k := range p.RawKeys {
+		if i < 2 {
+			ops = append(ops, []string{"op", "put-raw", verifh.Str(k), "x7a"})
+		}
 	}
 	for _, pf := range p.Prefixes {
 		ops = append(ops, []string{"op", "list", verifh.Str(pf)})
@@ -505,13 +564,21 @@ func Generate(t *verifh.T, label string, p Profile, mk Factory) {
 			ops := append(prefix[:len(prefix):len(prefix)], alpha[len(alpha)-len(p.Prefixes):]...)
 			for _, n := range p.Names[:2] {
 				ops = append(ops, []string{"op", "download", n}, []string{"op", "stat", n})
+				if p.SubOps {
+					ops = append(ops, []string{"op", "download@shadow", n})
+				}
+			}
+			if p.Paged {
+				pf := verifh.Str(p.Prefixes[0])
+				ops = append(ops, []string{"op", "page", pf, "1", "-"}, []string{"op", "page", pf, "1", "@prev"},
+					[]string{"op", "page", pf, "1", "@prev"})
 			}
 			Exec(t, verifh.Case{Cfg: p.Cfg, Ops: ops}, mk)
 			t.Count(label+"_exhaustive_cases", 1)
 			return
 		}
 		for _, o := range alpha {
-			if o[1] != "upload" && d > 1 {
+			if o[1] != "upload" && o[1] != "put-raw" && d > 1 {
 				continue // reads in the middle do not change the state: all reads follow every prefix anyway
 			}
 			rec(append(prefix[:len(prefix):len(prefix)], o), d-1)
@@ -522,7 +589,7 @@ func Generate(t *verifh.T, label string, p Profile, mk Factory) {
 	}
 	// (b) seeded random histories over the whole name space, arbitrary contents, page sessions
 	r := verifh.NewRand(verifh.Seed(), "c37"+label)
-	for i := 0; i < verifh.Scale(120, 3000); i++ {
+	for i := 0; i < verifh.Scale(70, 2500); i++ {
 		var ops [][]string
 		n := 1 + r.Intn(40)
 		for j := 0; j < n; j++ {
@@ -546,7 +613,9 @@ func Generate(t *verifh.T, label string, p Profile, mk Factory) {
 				ops = append(ops, op)
 			case x < 11:
 				op := []string{"op", "download", name}
-				if r.Chance(1, 2) {
+				if p.SubOps && r.Chance(1, 3) {
+					op[1] = r.Pick("download@shadow", "download@active")
+				} else if r.Chance(1, 2) {
 					op = append(op, "w=at")
 				}
 				ops = append(ops, op)
@@ -562,6 +631,8 @@ func Generate(t *verifh.T, label string, p Profile, mk Factory) {
 				default:
 					ops = append(ops, []string{"op", "stat", bad})
 				}
+			case x < 15 && len(p.RawKeys) > 0:
+				ops = append(ops, []string{"op", "put-raw", verifh.Str(p.RawKeys[r.Intn(len(p.RawKeys))]), verifh.Hex(r.Bytes(1 + r.Intn(3)))})
 			case x < 16:
 				ops = append(ops, []string{"op", "list", verifh.Str(p.Prefixes[r.Intn(len(p.Prefixes))])})
 			default:
